@@ -56,13 +56,14 @@ func (r *jsonResponder) respond(ctx context.Context, w http.ResponseWriter, req 
 		return nil
 	}
 
-	// Set status code and encode response
-	w.WriteHeader(http.StatusOK)
-	if err := json.NewEncoder(w).Encode(resp); err != nil {
+	// Encode first: once the 200 is written a failure could only leave an empty body behind.
+	data, err := json.Marshal(resp)
+	if err != nil {
 		return err
 	}
-
-	return nil
+	w.WriteHeader(http.StatusOK)
+	_, err = w.Write(append(data, '\n'))
+	return err
 }
 
 // SupportsContentType checks if the specified content type is supported
